@@ -466,7 +466,7 @@ func (v *Verifier) Discharge(work string, tmo int, par int, depth int) []*Result
 	sem2 := make(chan struct{}, 2)
 	for i, o := range v.obligations {
 		r := results[i]
-		if r.Status == "failed" && r.Answer != "sat" {
+		if r.Status == "failed" && r.Answer != "sat" && !strings.HasSuffix(o.Name, "[known]") {
 			wg.Add(1)
 			go func(i int, o *Obligation) {
 				defer wg.Done()
